@@ -28,6 +28,7 @@ pub fn run(thorough: bool) -> Vec<Part> {
         let limits = Limits { max_states: 10_000_000, max_secs: if thorough { 1500.0 } else { 100.0 }, ..Default::default() };
         let st = bfs(&cfg, &limits, workers());
         record(&mut part, &cfg.label, &st);
+        crate::explore::require_facts(&mut part, &cfg.label, &st, &["short_write", "enqueue_while_partially_written", "eintr_with_partial_buffer", "failure_with_two_or_more_queued", "write_attempt_with_nothing_pending", "enqueue_after_discard"]);
         for (v, _) in &st.violations {
             part.violations.push(v.clone());
         }
